@@ -125,6 +125,8 @@ type c20Build struct {
 	loads           map[string]int
 	firstResolveLoad int
 	complete        bool
+	endTask         int // task that ran the end callbacks = the goroutine that owns the build
+	endExt          int // event position until which the context may still consider the build active
 }
 
 func scenarioC20(rc *RunCtx) *Violation {
@@ -313,7 +315,15 @@ func scenarioC20(rc *RunCtx) *Violation {
 
 func checkC20History(rc *RunCtx, ev []verifsim.Event, disk []verifsim.Op, zeroDigest string, progDesc []string, write bool) *Violation {
 	viol := func(class, f string, a ...interface{}) *Violation {
-		return &Violation{Class: class, Key: class, Detail: fmt.Sprintf(f, a...) + "; clients: " + strings.Join(progDesc, "; ")}
+		var sb strings.Builder
+		for i, e := range ev {
+			if i > 160 {
+				sb.WriteString(" ...")
+				break
+			}
+			fmt.Fprintf(&sb, " [%d t%d %s %s a=%d b=%d %s]", e.N, e.Task, e.Kind, e.S, e.A, e.B, trunc(e.T, 40))
+		}
+		return &Violation{Class: class, Key: class, Detail: fmt.Sprintf(f, a...) + "; clients: " + strings.Join(progDesc, "; ") + "; events:" + sb.String()}
 	}
 	// ---- segment callbacks into builds ----
 	var builds []*c20Build
@@ -386,9 +396,22 @@ func checkC20History(rc *RunCtx, ev []verifsim.Event, disk []verifsim.Op, zeroDi
 				// returns, or when one fails
 				if e.A == 1 || e.B == 1 {
 					cur.last = e.N
+					cur.endTask = e.Task
 					cur.complete = true
 					cur = nil
 				}
+			}
+		}
+	}
+	// After its last end callback a build is still "in progress" for the context until
+	// the owning goroutine has cleared the active build: up to the return of the owner's
+	// Rebuild call, or (watcher-owned builds) the owner's next logged action.
+	for _, b := range builds {
+		b.endExt = len(ev)
+		for _, e := range ev[b.last+1:] {
+			if e.Task == b.endTask {
+				b.endExt = e.N
+				break
 			}
 		}
 	}
@@ -469,7 +492,7 @@ func checkC20History(rc *RunCtx, ev []verifsim.Event, disk []verifsim.Op, zeroDi
 			var match *c20Build
 			matches := 0
 			for _, b := range builds {
-				if b.digest == dg && b.first < c.ret && b.last > c.inv {
+				if b.digest == dg && b.first < c.ret && b.endExt > c.inv {
 					match = b
 					matches++
 				}
@@ -484,7 +507,7 @@ func checkC20History(rc *RunCtx, ev []verifsim.Event, disk []verifsim.Op, zeroDi
 			// 3a. when nothing was in progress, the build is started by the call
 			idle := true
 			for _, b := range builds {
-				if b.first < c.inv && b.last > c.inv {
+				if b.first < c.inv && b.endExt > c.inv {
 					idle = false
 				}
 			}
